@@ -1354,19 +1354,28 @@ def set_instantaneous_absorption(model: Model):
     if has_instantaneous_absorption(model):
         pass
     else:
+        if cs.find_transit_compartments(statements):
+            # The dose goes directly into the central compartment
+            model = set_transit_compartments(model, 0)
+            statements = model.statements
+            cs = get_and_check_odes(model)
         depot = cs.find_depot(statements)
         if depot:
             to_comp, _ = cs.get_compartment_outflows(depot)[0]
             cb = CompartmentalSystemBuilder(cs)
-            cb.set_dose(to_comp, depot.doses[0])
+            to_comp = cb.set_dose(to_comp, depot.doses[0])
+            cb.set_bioavailability(to_comp, depot.bioavailability)
             ka = cs.get_flow(depot, cs.central_compartment)
             cb.remove_compartment(depot)
-            symbols = ka.free_symbols
+            # The lag time of the depot is not kept
+            symbols = ka.free_symbols | depot.lag_time.free_symbols
             statements = statements.before_odes + CompartmentalSystem(cb) + statements.after_odes
             model = model.replace(
                 statements=statements.remove_symbol_definitions(symbols, statements.ode_system)
             )
             model = remove_unused_parameters_and_rvs(model)
+            statements = model.statements
+            cs = get_and_check_odes(model)
         if has_zero_order_absorption(model):
             dose_comp = cs.dosing_compartments[0]
             old_symbols = dose_comp.free_symbols
